@@ -110,6 +110,19 @@ Proof.
   destruct H as [arr' [H1 [H2 H3]]]. exists arr'. repeat split; [exact H1|lia|exact H3].
 Qed.
 
+(** [capped_push] -- how the translations of set_header / unset_header read `self.headers.push(..)` -- is the translated push. *)
+Theorem gen_arrayvec_push_is_capped_push T cap site n (arr : list T) v :
+  len arr = cap -> n <= cap ->
+  match capped_push cap site (gen_arrayvec_deref T n arr) v with
+  | Ok l' => exists arr', gen_arrayvec_push T n arr v = Ok (n + 1, arr', tt) /\ len arr' = cap /\ gen_arrayvec_deref T (n + 1) arr' = l'
+  | Panic _ => exists s, gen_arrayvec_push T n arr v = Panic s
+  | Err _ => False
+  end.
+Proof.
+  intros Hcap Hn. pose proof (gen_arrayvec_push_capped T cap n arr v Hcap Hn) as H. unfold capped_push.
+  destruct (cap <=? len (gen_arrayvec_deref T n arr)); exact H.
+Qed.
+
 (** truncate: shortens the visible part, asserts that it does not lengthen it. *)
 Theorem gen_arrayvec_truncate_spec cur n :
   gen_arrayvec_truncate cur n = if n <=? cur then Ok (n, tt) else Panic "src/util.rs: assert! in truncate".
